@@ -28,6 +28,11 @@ AlphaA == {T(p[1], p[2], c, "error", FALSE, FALSE, 1) : p \in Places2, c \in {"a
           \cup {T(l, <<l>>, "misc", "note", FALSE, TRUE, 3) : l \in {1, 2}}
           \cup {Child(FALSE, 4)}
           \cup {T(1, <<1>>, "none", "error", TRUE, FALSE, 6), T(2, <<2>>, "syntax", "error", TRUE, FALSE, 6)}
+\* the same slice with three reports (thorough tier): a smaller alphabet keeps the product in budget
+AlphaA3 == {T(p[1], p[2], c, "error", FALSE, FALSE, 1) : p \in {<<1, <<1>>>>, <<1, <<1, 2>>>>, <<2, <<2, 1>>>>}, c \in {"assignment", "method-assign"}}
+           \cup {T(2, <<2>>, "misc", "error", FALSE, FALSE, 1), T(1, <<1>>, "truthy-bool", "error", FALSE, FALSE, 1),
+                 T(1, <<1>>, "misc", "note", FALSE, TRUE, 3), T(2, <<2>>, "misc", "note", FALSE, TRUE, 3),
+                 Child(FALSE, 4), T(2, <<2>>, "syntax", "error", TRUE, FALSE, 6)}
 CodesNone == {[enabled |-> {}, disabled |-> {}]}
 FlagsA == {[hasMap |-> TRUE, ignoreAll |-> FALSE, warnUnused |-> w, links |-> FALSE] : w \in BOOLEAN}
 SkipNone == {{}}
